@@ -74,12 +74,14 @@ def encode(cf, n, rnd, *patterns):
 def tiny_streams():
     """hand-assembled conformant streams (independent of the library)"""
     out = []
-    for prof, ver, frag in (("HQ", 2, False), ("LD", 1, False), ("HQ", 3, True), ("LD", 3, True)):
+    for prof, ver, frag, pn0 in (("HQ", 2, False, 0), ("LD", 1, False, 0), ("HQ", 3, True, 0), ("LD", 3, True, 0), ("HQ", 2, False, 7), ("HQ", 3, True, (1 << 32) - 2)):
         for fields in (False, True):
+            if pn0 == 7 and fields:
+                continue
             f = vb.Fmt(profile=prof, version=ver, fields=fields)
             pc = (vb.PC_HQ_PIC if prof == "HQ" else vb.PC_LD_PIC) if not frag else (vb.PC_HQ_FRAG if prof == "HQ" else vb.PC_LD_FRAG)
             units = [dict(code=vb.PC_SH, payload=vb.sequence_header_payload(f), first_in_sequence=True)]
-            for pn in range(2):
+            for pn in [(pn0 + i) % (1 << 32) for i in range(2 if pn0 == 0 else 4)]:
                 if not frag:
                     units.append(dict(code=pc, payload=vb.picture_payload(f, prof, pn)))
                 else:
@@ -90,7 +92,7 @@ def tiny_streams():
             units.append(dict(code=vb.PC_AUX, payload=b"aux!"))
             units.append(dict(code=vb.PC_EOS, payload=b"", npo="zero"))
             data, _ = vb.assemble(units)
-            out.append(("tiny_%s_v%d_%s_%s" % (prof, ver, "frag" if frag else "pic", "fields" if fields else "frames"), data))
+            out.append(("tiny_%s_v%d_%s_%s%s" % (prof, ver, "frag" if frag else "pic", "fields" if fields else "frames", "" if pn0 == 0 else "_pn%d" % pn0), data))
     return out
 
 
